@@ -158,8 +158,27 @@ fn parse_literal(s: &str) -> Option<Val> {
         if inner.is_empty() {
             return Some(Val::List(vec![]));
         }
-        // no nested commas in generated literals except nested lists, which are not generated
-        return inner.split(',').map(parse_literal).collect::<Option<Vec<_>>>().map(Val::List);
+        // split at top-level commas only (nested lists, strings)
+        let mut parts: Vec<String> = vec![];
+        let (mut depth, mut in_str, mut cur) = (0i32, false, String::new());
+        let mut prev = ' ';
+        for c in inner.chars() {
+            match c {
+                '"' if prev != '\\' => in_str = !in_str,
+                '[' if !in_str => depth += 1,
+                ']' if !in_str => depth -= 1,
+                ',' if !in_str && depth == 0 => {
+                    parts.push(std::mem::take(&mut cur));
+                    prev = c;
+                    continue;
+                }
+                _ => {}
+            }
+            cur.push(c);
+            prev = c;
+        }
+        parts.push(cur);
+        return parts.iter().map(|p| parse_literal(p)).collect::<Option<Vec<_>>>().map(Val::List);
     }
     if let Some(inner) = s.strip_prefix('"').and_then(|x| x.strip_suffix('"')) {
         return Some(Val::Str(inner.to_string()));
